@@ -259,7 +259,7 @@ def pat_mixed_sign(n, refs, lang, plat):
     if n.k == 'cond':
         cv = _child_vals(n, refs)
         cv = cv[1:] if cv else None
-    elif n.k == 'bin' and n.op not in (',', '||'):
+    elif n.k == 'bin' and n.op != ',':
         cv = _child_vals(n, refs)
     else:
         return False
@@ -528,7 +528,13 @@ def check_unit(ctx, d, name, u, lang, plat, use_gcc, use_patterns=True):
         ctx.count('dropped', 'unit: reference compiler reports errors outside probes')
         return
     excluded_lines = {}
+    unref = set(line for line, n, _t in inodes if id(n) not in refs)
     for line, st in u.stmts.items():
+        if line in unref:
+            # the finding patterns are decided with the reference's value and type of *every* operand
+            excluded_lines[line] = None
+            ctx.count('dropped', 'statement: the reference does not evaluate every sub-expression (not a constant there)')
+            continue
         if 'msvc' in plat.triple and any(msvc_signed_ll(x) for x in st.ch[1].walk()):
             excluded_lines[line] = None
             ctx.count('dropped', 'statement: LL-suffixed literal above LLONG_MAX on an MSVC target (reference types it signed '
